@@ -178,10 +178,11 @@ func (tm *typesMap) newName(typs []types.Type) string {
 	_, exists := tm.funcToTyps[funcName]
 	_, isreserved := tm.reserved[funcName]
 	for exists || isreserved {
-		if i > len(name) {
+		// the name of the type is cut off between letters and not between the bytes of a letter.
+		if letters := []rune(name); i > len(letters) {
 			funcName = tm.prefix + "_" + name + strconv.Itoa(i)
 		} else {
-			funcName = tm.prefix + "_" + name[:i]
+			funcName = tm.prefix + "_" + string(letters[:i])
 		}
 		i++
 		_, exists = tm.funcToTyps[funcName]
